@@ -302,3 +302,48 @@ def ctor_calls(mir, adt, variant):
                     c = o.get('const')
                     if c and strip_generics(c.get('fn') or '') == name:
                         yield b, i, b.blocks[i]['term'], 'value'
+
+
+def operand_locals_of_rv(rv):
+    out = []
+    for key in ('op', 'a', 'b'):
+        if key in rv and isinstance(rv[key], dict):
+            p = op_place(rv[key])
+            if p:
+                out.append(p['l'])
+                out += [e['idx'] for e in p['p'] if isinstance(e, dict) and 'idx' in e]
+    if 'place' in rv:
+        out.append(rv['place']['l'])
+    for o in rv.get('ops', []):
+        p = op_place(o)
+        if p:
+            out.append(p['l'])
+    return out
+
+
+def backslice(body, locals_, depth=40):
+    """transitive data dependences (locals) of the given locals inside one body: through statements and call arguments"""
+    seen = set()
+    todo = list(locals_)
+    # writes through projections count as definitions of the base local too
+    pdefs = {}
+    for i, j, s in body.stmts():
+        if s['k'] == 'assign' and s['place']['p']:
+            pdefs.setdefault(s['place']['l'], []).append(s)
+    while todo:
+        l = todo.pop()
+        if l in seen:
+            continue
+        seen.add(l)
+        for kind, bb, idx, x in body.defs().get(l, []):
+            if kind == 'call':
+                for a in x['args']:
+                    p = op_place(a)
+                    if p:
+                        todo.append(p['l'])
+            else:
+                todo += operand_locals_of_rv(x['rv'])
+        for s in pdefs.get(l, []):
+            todo += operand_locals_of_rv(s['rv'])
+        # call destinations with projections
+    return seen
